@@ -407,7 +407,7 @@ reg("C07", fast=True,
     assumptions=["gob payload encoding is library code: assumed to round-trip (hypothesis of gob_roundtrip_assumed), sampled on every run; its framing is modelled",
                  "encoding/csv, net/textproto (MIME header block), time formatting and the easyjson lexer are library code: reference models (Model/Csv.v, Model/ResultCodec.v, Model/Json.v)",
                  "byte-wise differences between model and implementation encoders with all property clauses holding are declared don't-care (quoting style is free)"],
-    level_text="csv_record_roundtrip and csv_stream_roundtrip (every stream of results in the representable domain whose texts hold no CR LF decodes through the CSV codec to an equal sequence then end-of-stream; the MIME header block round trip is a hypothesis on a reference model), built from csv_fields_roundtrip (Go's CSV reader recovers every field sequence without CR LF, all contents, unbounded), rfc_csv_roundtrip (all fields), b64_roundtrip, dec_roundtrip; csv_crlf_refuted; csv_columns_documented - all proved in Coq; the JSON and gob round trips are established by the tie only; the CSV and JSON layouts of the model are written from the documentation and act as the independent readers; tie by differential runs of the three real codecs.",
+    level_text="csv_record_roundtrip and csv_stream_roundtrip (every stream of results in the representable domain whose texts hold no CR LF decodes through the CSV codec to an equal sequence then end-of-stream; the MIME header block round trip mime_roundtrip is proved too for canonical distinct keys and clean values: csv_stream_roundtrip_in_domain), built from csv_fields_roundtrip (Go's CSV reader recovers every field sequence without CR LF, all contents, unbounded), rfc_csv_roundtrip (all fields), b64_roundtrip, dec_roundtrip; csv_crlf_refuted; csv_columns_documented - all proved in Coq; the JSON and gob round trips are established by the tie only; the CSV and JSON layouts of the model are written from the documentation and act as the independent readers; tie by differential runs of the three real codecs.",
     technique="Coq round-trip proofs of the codec components; independent-reader differential correspondence",
     timeout={"quick": 900, "thorough": 3000})
 reg("C11", fast=True,
